@@ -28,8 +28,9 @@ reg('C13',
     'transaction bookkeeping, populated cache keys).',
     'Trusted: the rebuilt molecule (fresh add_atom/add_bond in the same insertion order) as reference for derived values; this decides coherence, '
     'not correctness of the derived values themselves (C01-C06 do that). Bounds: quick depth 3 (<=4 atoms, <=1 charged/radical atom) with default '
-    'reads plus depth 2 with <=1 read deviation; thorough depth 4 (<=5 atoms) plus depth 3 with <=1 and <=2 deviations. Long random sequences of '
-    'the property text are replaced by this bounded exhaustive space.',
+    'reads plus depth 2 with <=1 read deviation (none / exactly one of 9 values); thorough depth 4 (<=4 atoms) plus depth 3 with <=1 deviation on 11 seeds '
+    'and <=2 deviations on 5 seeds. Seeds include a coordinate-bond molecule (CN~Cu). Long random sequences of the property text are replaced by this '
+    'bounded exhaustive space.',
     'explicit-state BFS with canonical state hashing and deviation-bounded environment choices, real implementation vs rebuilt reference',
     'DESIGN.md s5 C13')
 
@@ -117,7 +118,7 @@ reg('C05',
     'reads back and kekulises to the same formula and aromatic form.',
     'Relational oracle (no reference aromaticity model): what is aromatic is not judged, only stability and conservation. Per-atom H is decided with '
     'fix_tautomers=False; the default call moving a ring-NH hydrogen is a known finding keyed by call site. Unsaturated four-membered rings are '
-    'excluded from the enumerate clause (property text). Two exotic inputs are recorded as known findings.',
+    'excluded from the enumerate clause (property text). The thiazinium Kekule input and the [CH-] five-ring aromatic text family are recorded as known findings.',
     'bounded exhaustive enumeration of ring systems x double-bond matchings x renumberings on the real implementation, relational oracle',
     'DESIGN.md s5 C05')
 
@@ -128,7 +129,8 @@ reg('C10',
     'and value/midpoint/near-next through the packer; D(<=5,k), stereo families, polyenes/allenes and the corpus; reactions with (reactants, reagents, '
     'products) in {0..3}^3 and 255 per role incl. empty sides; legacy version-0 packs. Each case: bytes equal to an independent bit-string writer of the '
     'published layout, unpack(pack(m)) equal on raw state (numbers, dict and neighbour order, labels, stereo, half-precision xy), pack_len, '
-    'chython.unpack dispatch, limits rejected. Conformance: the 4200 packs published in pach/SI.zip decode, re-encode to the identical bytes and '
+    'chython.unpack dispatch, limits rejected; a format-limits stage drives the documented maxima (atom number 4095, 15 neighbours, 255 molecules per role, '
+    'large molecules up to the 16-bit offsets) where a model integer overflow is reported as inconclusive (cap), not as a violation. Conformance: the 4200 packs published in pach/SI.zip decode, re-encode to the identical bytes and '
     'match the structure of their CSV row (traces_validated_against_impl).',
     'Trusted: vf/pyxmodel (source-derived model with C integer semantics, poison for uninitialised memory, ModelLimit on out-of-range intermediates), '
     'vf/oracle/pack_ref.py. No compiled extension exists in the sandbox; the published packs are the only traces of a real build. Role counts are '
@@ -170,7 +172,7 @@ reg('C01',
     'atoms, <=1 deviation above), RDKit spellings over renumberings x roots x aromatic/Kekule, and every "which derived value is read first" order. '
     'Each description must give the same canonical string, hash and == (after kekule+thiele normalisation where the text came from the other toolkit).',
     'The two exclusions of the property are recognised independently on the input graph (vf/oracle/symmetry.py: orbits of the stereo-free automorphism '
-    'group): cases inside them are executed and counted as out of domain, never reported. Three monocyclic alternating annulenes are a known finding. '
+    'group): cases inside them are executed and counted as out of domain, never reported. Three monocyclic alternating annulenes and the writer placing a stereo double bond on a ring-closure digit inside a conjugated diene are known findings. '
     'Molecules above the small scope are covered by the text families and corpus only.',
     'bounded exhaustive enumeration of descriptions incl. stateless choice-point exploration of the random-order writer (deviation bounded)',
     'DESIGN.md s3.4, s5 C01')
@@ -184,7 +186,8 @@ reg('C02',
     'same stereoisomer. Injectivity: over D(<=5,2) (thorough <=6,2) the map canonical string -> brute-force canonical code of the labelled graph is a '
     'function, and stereoisomers that RDKit distinguishes never share a string.',
     'Trusted: RDKit as the independent reader; vf/oracle/iso.py canonical codes. Signs are compared through the library sign translation on both sides '
-    '(its permutation consistency is C12). Aromatic inputs are normalised (kekule+thiele) before writing.',
+    '(its permutation consistency is C12). Aromatic inputs are normalised (kekule+thiele) before writing. Known finding: the writer loses/inverts a '
+    'cis/trans mark when a stereo double bond of a conjugated diene is written as a ring-closure bond (keyed by that traversal shape).',
     'bounded exhaustive enumeration of molecules x format options x writer traversals (stateless choice-point exploration, deviation bounded)',
     'DESIGN.md s3.4, s5 C02')
 
@@ -198,7 +201,7 @@ reg('C12',
     'centres (C(a)(b)(c)(d) and abC=Ccd over substituent alphabets, ring double bonds of every ring size 3..12); own wedge map -> add_wedge restores '
     'every sign on RDKit 2D coordinates and RDKit reads the written MolBlock as the same stereoisomer.',
     'Trusted: RDKit as independent toolkit; permutation parity (vf/oracle/parity.py). Non-carbon stereocentres are out of domain. Molecules with up to 8 '
-    'stereo elements are covered through the corpus and templates with up to 4 labels only.',
+    'stereo elements are covered through the corpus and templates with up to 4 labels only. The ring-closure-diene writer defect is a known finding shared with C01/C02.',
     'complete enumeration of neighbour permutations and bounded exhaustive enumeration of spellings (choice-point exploration) vs parity and RDKit',
     'DESIGN.md s5 C12')
 
@@ -223,7 +226,8 @@ reg('C14',
     'multiset unchanged; net charge and hydrogen count conserved for rearrangements, equal change for neutralisation; no valence error afterwards; '
     'derived values and atom/bond marks of the processed object equal those of a recomputed copy; op(op(m)) = op(m) on the structure; implicify o explicify '
     'and its converse are identities; op(pi m) = pi op(m) for ALL (n<=4) / GEN numberings with tautomer fixing off (on for the corpus); documented '
-    'inputs give their documented outputs; tautomers conserve composition and are duplicate free.',
+    'inputs give their documented outputs; tautomers conserve composition and are duplicate free. Rule instances are additionally run with gapped atom numbers '
+    '(2n+5) and an azole/azolium ring scan (every N/O/S placement in five-rings x N-substituent x charge) checks the charge rules on aromatic rings.',
     'Relational oracle (no reference standardiser). Return values are not part of the idempotence statement. Four classes are known findings keyed by '
     'call site or input (metal amide -> dative rule adds hydrogens; azoxy-type two-pass rules; eta5-Cp numbering; one tautomer KeyError).',
     'bounded exhaustive enumeration of molecules x operations x numberings on the real implementation, relational oracle',
@@ -248,7 +252,7 @@ reg('C11',
     'Records are enumerated and pushed through every writer/reader pair {SDF V2000, SDF V3000, RDF, RDF V3000, MRV} with atom mapping on and off: '
     'Kekule molecules of D(<=4,1), charge -4..+4 (alone and next to other charged atoms), every 5th (thorough: every) element x tabulated isotopes, '
     'radicals, bond orders 1,2,3,4,8, atom numbers up to 999, stereo molecules with an RDKit 2D layout (tetrahedral, allene, cis/trans); reactions with '
-    '{0,1,2}^3 molecules per role and stereo molecules in every role, several records per file. Compared field by field: atom order and numbers, element, '
+    '{0,1,2}^3 molecules per role and stereo molecules in every role, several records per file; templates with interdependent centres. Compared field by field: atom order and numbers, element, '
     'isotope, charge, radical, bond orders, configuration (signs relative to ascending neighbours), roles, titles, metadata. Titles, metadata keys and '
     'values: every string of length <=3 over {a, blank, <, >, &, $, newline, -}. Damaged files: 4-record SDF and V3000 files with every line deletion '
     'and every field corruption at every position - all untouched records must be returned in order and nothing may escape the iteration. Random access: '
